@@ -95,52 +95,53 @@ theorem valNodes_eq (o : Option (List Nat)) :
     valNodes o = (match o with | some rs => Val.nodes (docOrder rs) | none => Val.err) := by
   cases o <;> rfl
 
-theorem evalS_spec (J : Expr → SCtx → SCtx) (hV : ∀ n, isDummyDoc m n = true → kd a n = .doc) :
+theorem evalS_spec (hV : ∀ n, isDummyDoc m n = true → kd a n = .doc) :
     ∀ (e : Expr) (t : Ty) (c : SCtx), ty e = some t → c.axis = none →
-      (evalS J m a e c).1 = eval m a e c.focus ∧ (t ≠ .bool → Kept e c (evalS J m a e c).2) := by
+      (evalS m a e c).1 = eval m a e c.focus ∧ Kept e c (evalS m a e c).2 := by
   intro e
   induction e with
   | step ax t' ab =>
     intro t c _ hc
     have := stepS_spec hV ax t' ab c hc
     simp only [evalS, eval]
-    exact ⟨by rw [this.1]; rfl, fun _ => this.2⟩
+    exact ⟨by rw [this.1]; rfl, this.2⟩
   | ctxItem =>
     intro t c _ hc
     simp only [evalS, eval]
-    refine ⟨rfl, fun _ => ?_⟩
+    refine ⟨rfl, ?_⟩
     rw [prog_restores .self c.ia (by simp), setIA_self]; exact ⟨rfl, rfl, rfl, fun _ => rfl⟩
   | parentAbbr =>
     intro t c _ hc
     simp only [evalS, eval]
-    refine ⟨rfl, fun _ => ?_⟩
+    refine ⟨rfl, ?_⟩
     rw [prog_restores .parent c.ia (by simp), setIA_self]; exact ⟨rfl, rfl, rfl, fun _ => rfl⟩
-  | rootOnly => intro t c _ _; exact ⟨rfl, fun _ => ⟨rfl, rfl, rfl, fun _ => rfl⟩⟩
-  | num k => intro t c _ _; exact ⟨rfl, fun _ => ⟨rfl, rfl, rfl, fun _ => rfl⟩⟩
-  | position => intro t c _ _; exact ⟨rfl, fun _ => ⟨rfl, rfl, rfl, fun _ => rfl⟩⟩
-  | last => intro t c _ _; exact ⟨rfl, fun _ => ⟨rfl, rfl, rfl, fun _ => rfl⟩⟩
+  | rootOnly => intro t c _ _; exact ⟨rfl, ⟨rfl, rfl, rfl, fun _ => rfl⟩⟩
+  | num k => intro t c _ _; exact ⟨rfl, ⟨rfl, rfl, rfl, fun _ => rfl⟩⟩
+  | lit ng k => intro t c _ _; exact ⟨rfl, ⟨rfl, rfl, rfl, fun _ => rfl⟩⟩
+  | position => intro t c _ _; exact ⟨rfl, ⟨rfl, rfl, rfl, fun _ => rfl⟩⟩
+  | last => intro t c _ _; exact ⟨rfl, ⟨rfl, rfl, rfl, fun _ => rfl⟩⟩
   | paren e ih =>
     intro t c h hc
     simp only [ty] at h
     have := ih t c h hc
     simp only [evalS, eval]
-    exact ⟨this.1, fun ht => by have := this.2 ht; exact ⟨this.1, this.2.1, this.2.2.1, fun hn => this.2.2.2 (by simpa [nsTail] using hn)⟩⟩
+    exact ⟨this.1, by have := this.2; exact ⟨this.1, this.2.1, this.2.2.1, fun hn => this.2.2.2 (by simpa [nsTail] using hn)⟩⟩
   | count e ih =>
     intro t c h hc
     obtain ⟨h1, rfl⟩ := ty_count h
     have := ih .path c h1 hc
     simp only [evalS, eval, this.1]
-    refine ⟨?_, fun _ => ?_⟩
+    refine ⟨?_, ?_⟩
     · cases eval m a e c.focus <;> rfl
-    · have k := this.2 (by simp)
+    · have k := this.2
       exact ⟨k.1, k.2.1, k.2.2.1, fun hn => k.2.2.2 (by simpa [nsTail] using hn)⟩
   | root e ih =>
     intro t c h hc
     obtain ⟨h1, rfl⟩ := ty_root h
     have := ih .path { c with item := 0 } h1 hc
     simp only [evalS, eval]
-    refine ⟨this.1, fun _ => ?_⟩
-    have k := this.2 (by simp)
+    refine ⟨this.1, ?_⟩
+    have k := this.2
     exact ⟨k.1, k.2.1, k.2.2.1, fun _ => rfl⟩
   | pred e p ihe ihp =>
     intro t c h hc
@@ -148,7 +149,7 @@ theorem evalS_spec (J : Expr → SCtx → SCtx) (hV : ∀ n, isDummyDoc m n = tr
     have hentry : swfEntry e c = c := by unfold swfEntry; split; rfl; exact sctx_axis_none hc
     have he := (ihe .path c h1 hc).1
     simp only [evalS, eval, hentry, he]
-    refine ⟨?_, fun _ => ?_⟩
+    refine ⟨?_, ?_⟩
     · cases hv : eval m a e c.focus with
       | nodes l =>
         simp only
@@ -158,6 +159,7 @@ theorem evalS_spec (J : Expr → SCtx → SCtx) (hV : ∀ n, isDummyDoc m n = tr
         rw [(ihp tp (SCtx.ofFocus f') h2 rfl).1]
         rfl
       | num k => rfl
+      | dec ng k => rfl
       | bool b => rfl
       | err => rfl
     · cases eval m a e c.focus <;> exact ⟨rfl, rfl, rfl, fun _ => rfl⟩
@@ -166,21 +168,22 @@ theorem evalS_spec (J : Expr → SCtx → SCtx) (hV : ∀ n, isDummyDoc m n = tr
     obtain ⟨h1, h2, rfl⟩ := ty_slash h
     have hentry : swfEntry l c = c := by unfold swfEntry; split; rfl; exact sctx_axis_none hc
     have hl := (ihl .path c h1 hc).1
-    have hg : ∀ c', c'.axis = none → (evalS J m a r c').1 = eval m a r c'.focus ∧
-        (evalS J m a r c').2.axis = none ∧ (evalS J m a r c').2.pos = c'.pos ∧
-        (evalS J m a r c').2.size = c'.size := by
+    have hg : ∀ c', c'.axis = none → (evalS m a r c').1 = eval m a r c'.focus ∧
+        (evalS m a r c').2.axis = none ∧ (evalS m a r c').2.pos = c'.pos ∧
+        (evalS m a r c').2.size = c'.size := by
       intro c' hc'
       have := ihr .path c' h2 hc'
-      have k := this.2 (by simp)
+      have k := this.2
       exact ⟨this.1, by rw [k.1]; exact hc', k.2.1, k.2.2.1⟩
     simp only [evalS, eval, hentry, hl]
-    refine ⟨?_, fun _ => ?_⟩
+    refine ⟨?_, ?_⟩
     · cases hv : eval m a l c.focus with
       | nodes ls =>
         simp only
         rw [(loopS_spec _ _ hg _ _ (by rfl)).1]
         exact valNodes_eq _
       | num k => rfl
+      | dec ng k => rfl
       | bool b => rfl
       | err => rfl
     · cases eval m a l c.focus <;> exact ⟨rfl, rfl, rfl, fun _ => rfl⟩
@@ -189,39 +192,40 @@ theorem evalS_spec (J : Expr → SCtx → SCtx) (hV : ∀ n, isDummyDoc m n = tr
     obtain ⟨h1, h2, rfl⟩ := ty_dslash h
     have hentry : swfEntry l c = c := by unfold swfEntry; split; rfl; exact sctx_axis_none hc
     have hl := (ihl .path c h1 hc).1
-    have hg : ∀ c', c'.axis = none → (evalS J m a r c').1 = eval m a r c'.focus ∧
-        (evalS J m a r c').2.axis = none ∧ (evalS J m a r c').2.pos = c'.pos ∧
-        (evalS J m a r c').2.size = c'.size := by
+    have hg : ∀ c', c'.axis = none → (evalS m a r c').1 = eval m a r c'.focus ∧
+        (evalS m a r c').2.axis = none ∧ (evalS m a r c').2.pos = c'.pos ∧
+        (evalS m a r c').2.size = c'.size := by
       intro c' hc'
       have := ihr .path c' h2 hc'
-      have k := this.2 (by simp)
+      have k := this.2
       exact ⟨this.1, by rw [k.1]; exact hc', k.2.1, k.2.2.1⟩
     simp only [evalS, eval, hentry, hl]
-    refine ⟨?_, fun _ => ?_⟩
+    refine ⟨?_, ?_⟩
     · cases hv : eval m a l c.focus with
       | nodes ls =>
         simp only
         rw [(loopS_spec _ _ hg _ _ (by rfl)).1]
         exact valNodes_eq _
       | num k => rfl
+      | dec ng k => rfl
       | bool b => rfl
       | err => rfl
     · cases eval m a l c.focus <;> exact ⟨rfl, rfl, rfl, fun _ => rfl⟩
   | droot e ih =>
     intro t c h hc
     obtain ⟨h1, rfl⟩ := ty_droot h
-    have hg : ∀ c', c'.axis = none → (evalS J m a e c').1 = eval m a e c'.focus ∧
-        (evalS J m a e c').2.axis = none ∧ (evalS J m a e c').2.pos = c'.pos ∧
-        (evalS J m a e c').2.size = c'.size := by
+    have hg : ∀ c', c'.axis = none → (evalS m a e c').1 = eval m a e c'.focus ∧
+        (evalS m a e c').2.axis = none ∧ (evalS m a e c').2.pos = c'.pos ∧
+        (evalS m a e c').2.size = c'.size := by
       intro c' hc'
       have := ih .path c' h1 hc'
-      have k := this.2 (by simp)
+      have k := this.2
       exact ⟨this.1, by rw [k.1]; exact hc', k.2.1, k.2.2.1⟩
     have hloop := loopS_spec _ _ hg
       ((iterDescendants m a true 0).map fun d => (⟨d, c.pos, c.size⟩ : Focus))
       { c with item := 0, axis := none } rfl
     simp only [evalS, eval]
-    refine ⟨?_, fun _ => ?_⟩
+    refine ⟨?_, ?_⟩
     · rw [hloop.1]
       exact valNodes_eq _
     · have hps := hloop.2.2 c.pos c.size rfl rfl (by
@@ -235,21 +239,21 @@ theorem evalS_spec (J : Expr → SCtx → SCtx) (hV : ∀ n, isDummyDoc m n = tr
     obtain ⟨h1, h2, rfl⟩ := ty_union h
     have hcopy : c.copy = c := sctx_axis_none hc
     simp only [evalS, eval, hcopy, (ihl .path c h1 hc).1, (ihr .path c h2 hc).1]
-    refine ⟨?_, fun _ => ⟨rfl, rfl, rfl, fun _ => rfl⟩⟩
+    refine ⟨?_, ⟨rfl, rfl, rfl, fun _ => rfl⟩⟩
     cases eval m a l c.focus <;> cases eval m a r c.focus <;> rfl
   | cmp op l r ihl ihr =>
     intro t c h hc
     obtain ⟨h1, h2, rfl⟩ := ty_cmp h
     have hcopy : c.copy = c := sctx_axis_none hc
     simp only [evalS, eval, hcopy, (ihl .num c h1 hc).1, (ihr .num c h2 hc).1]
-    refine ⟨?_, fun hne => absurd rfl hne⟩
+    refine ⟨?_, ⟨rfl, rfl, rfl, fun _ => rfl⟩⟩
     cases eval m a l c.focus <;> cases eval m a r c.focus <;> rfl
   | and l r ihl ihr =>
     intro t c h hc
     obtain ⟨⟨tl, h1⟩, ⟨tr, h2⟩, rfl⟩ := ty_and h
     have hcopy : c.copy = c := sctx_axis_none hc
     simp only [evalS, eval, hcopy, (ihl tl c h1 hc).1, (ihr tr c h2 hc).1, evalS.andVal']
-    refine ⟨?_, fun hne => absurd rfl hne⟩
+    refine ⟨?_, ⟨rfl, rfl, rfl, fun _ => rfl⟩⟩
     generalize ebv (eval m a l c.focus) = x
     generalize ebv (eval m a r c.focus) = y
     rcases x with _ | (_ | _) <;> rcases y with _ | (_ | _) <;> rfl
@@ -258,15 +262,16 @@ theorem evalS_spec (J : Expr → SCtx → SCtx) (hV : ∀ n, isDummyDoc m n = tr
     obtain ⟨⟨tl, h1⟩, ⟨tr, h2⟩, rfl⟩ := ty_or h
     have hcopy : c.copy = c := sctx_axis_none hc
     simp only [evalS, eval, hcopy, (ihl tl c h1 hc).1, (ihr tr c h2 hc).1, evalS.orVal']
-    refine ⟨?_, fun hne => absurd rfl hne⟩
+    refine ⟨?_, ⟨rfl, rfl, rfl, fun _ => rfl⟩⟩
     generalize ebv (eval m a l c.focus) = x
     generalize ebv (eval m a r c.focus) = y
     rcases x with _ | (_ | _) <;> rcases y with _ | (_ | _) <;> rfl
   | not e ih =>
     intro t c h hc
     obtain ⟨⟨te, h1⟩, rfl⟩ := ty_not h
-    simp only [evalS, eval, (ih te c h1 hc).1]
-    refine ⟨?_, fun hne => absurd rfl hne⟩
+    have hcopy : c.copy = c := sctx_axis_none hc
+    simp only [evalS, eval, hcopy, (ih te c h1 hc).1]
+    refine ⟨?_, ⟨rfl, rfl, rfl, fun _ => rfl⟩⟩
     generalize ebv (eval m a e c.focus) = x
     rcases x with _ | (_ | _) <;> rfl
 
